@@ -252,12 +252,22 @@ pub enum Op {
     JumpIfNotNullish { cond: Register, target: JumpTarget },
 
     /// Break to target (runs finally blocks first)
-    /// try_depth is the try stack depth at the target loop
-    Break { target: JumpTarget, try_depth: u8 },
+    /// try_depth is the try stack depth at the target loop;
+    /// scope_depth is the number of block scopes open at the target (scopes entered since
+    /// then are popped before the jump)
+    Break {
+        target: JumpTarget,
+        try_depth: u8,
+        scope_depth: u16,
+    },
 
     /// Continue to target (runs finally blocks first)
-    /// try_depth is the try stack depth at the target loop
-    Continue { target: JumpTarget, try_depth: u8 },
+    /// try_depth / scope_depth as for Break
+    Continue {
+        target: JumpTarget,
+        try_depth: u8,
+        scope_depth: u16,
+    },
 
     // ═══════════════════════════════════════════════════════════════════════════════
     // Variable Access
